@@ -516,6 +516,54 @@ func replayOrphan(cs *seqCase, env *rt.Env) rt.Result {
 	return rt.Result{OK: true, Evals: iters, Sig: "orphan-not-observed", Extra: map[string]interface{}{"iterations": iters}}
 }
 
+// replayFirstWrites: the first operations on a fresh (or Free()d) cache race on the lazy allocation of the store.  Two
+// goroutines each write one key into a fresh cache; both writes return nil, so both values must be readable and Size() must
+// account for both.  (Found by trace validation: Cache.init() let the loser of its CAS proceed on the placeholder emptyStore
+// before the winner had installed the ring, so acknowledged writes were dropped.)  Bounded search, budget in ms.
+func replayFirstWrites(cs *seqCase, env *rt.Env) rt.Result {
+	budget := time.Duration(cs.NKeys) * time.Millisecond
+	if budget <= 0 {
+		budget = 2 * time.Second
+	}
+	deadline := time.Now().Add(budget)
+	iters := 0
+	for time.Now().Before(deadline) {
+		for j := 0; j < 200; j++ {
+			iters++
+			c := tsm1.NewCache(0, tsdb.EngineTags{})
+			if j%2 == 1 { // also after Free(): allocate, free, race again
+				c.WriteMulti(map[string][]tsm1.Value{"x": {tsm1.NewIntegerValue(1, 1)}})
+				c.Delete([][]byte{[]byte("x")})
+				c.Free()
+			}
+			var wg sync.WaitGroup
+			start := make(chan struct{})
+			errs := make([]error, 2)
+			keys := []string{"ka", "kb"}
+			for g := 0; g < 2; g++ {
+				wg.Add(1)
+				go func(g int) {
+					defer wg.Done()
+					<-start
+					errs[g] = c.WriteMulti(map[string][]tsm1.Value{keys[g]: {tsm1.NewIntegerValue(1, int64(g))}})
+				}(g)
+			}
+			close(start)
+			wg.Wait()
+			for g := 0; g < 2; g++ {
+				if errs[g] == nil && len(c.Values([]byte(keys[g]))) != 1 {
+					return rt.Fail(g, fmt.Sprintf("two concurrent first writes on a fresh cache: WriteMulti(%s) returned nil but Values(%s) is empty; "+
+						"Size()=%d, Keys()=%d (iteration %d, afterFree=%v)", keys[g], keys[g], c.Size(), len(c.Keys()), iters, j%2 == 1), 0, 1)
+				}
+			}
+			if sz := c.Size(); sz != 2*(16+2) {
+				return rt.Fail(2, fmt.Sprintf("two concurrent first writes on a fresh cache: Size()=%d, want 36", sz), sz, 36)
+			}
+		}
+	}
+	return rt.Result{OK: true, Evals: iters, Nontrivial: true, Sig: "firstwrites"}
+}
+
 func adapter(raw json.RawMessage, env *rt.Env) rt.Result {
 	var cs seqCase
 	if err := json.Unmarshal(raw, &cs); err != nil {
@@ -528,6 +576,8 @@ func adapter(raw json.RawMessage, env *rt.Env) rt.Result {
 		return replaySpan(&cs, env)
 	case "orphan":
 		return replayOrphan(&cs, env)
+	case "firstwrites":
+		return replayFirstWrites(&cs, env)
 	}
 	return rt.Infra("unknown mode " + cs.Mode)
 }
